@@ -4,7 +4,7 @@
    with Gradient.At on thousands of pixels), and these theorems are about its instance over the reals.
    PARTIAL: the piece-wise linear interpolation itself (Gradient.At locating the range of an offset)
    is modelled and compared with the implementation, and its premultiplication / end-point facts are
-   proved for the interpolation formula (interp_*), but "At returns the interpolation at the clamped
+   proved for the interpolation formula (the interp theorems below), but "At returns the interpolation at the clamped
    offset" is not yet a theorem about the list-search in grad_at. *)
 From Coq Require Import Reals ZArith Bool.
 From IVG Require Import Gradient ClampR.
